@@ -166,3 +166,35 @@ Theorem C02_mode_change_implies_logged :
       exists g, In g (s_log st') /\ g_file g = p /\ g_descr g = DChmod.
 Proof. exact mode_change_implies_logged. Qed.
 Print Assumptions C02_mode_change_implies_logged.
+
+
+(* ====================== symbolic links (Model/FsLinks.v) ======================
+   The names state, path, lookup, ... below are those of Model/FsProto.v and Model/FsLinks.v
+   (entry names in the lstat view; see Props/C05.v for the description of the model). *)
+From PV Require Import Model.FsProto Model.FsLinks Proofs.FsLinks.
+Open Scope N_scope.
+
+(* every entry that differs from the initial one -- content, mode or kind, at the end of the
+   run, after any fault, at any crash point -- is named by the run: a saved file, its
+   temporary name, or a checked argument; never what a link refers to *)
+Theorem C02_link_changed_entry_is_named :
+  forall (s : Model.FsProto.state) (prog : list laction) (plan : lplan) (q : Model.FsProto.path),
+    Model.FsProto.lookup q (st_fs (lw_st (lrun prog (init_lworld s plan)))) <> Model.FsProto.lookup q (st_fs s) ->
+    l_named prog q.
+Proof. exact link_changed_entry_is_named. Qed.
+Print Assumptions C02_link_changed_entry_is_named.
+
+(* the command-line argument is examined with Lstat: only the entry itself can change *)
+Theorem C02_lstat_argument_frame :
+  forall (s : Model.FsProto.state) (f : Model.FsProto.path) (plan : lplan) (q : Model.FsProto.path), q <> f ->
+    Model.FsProto.lookup q (st_fs (lw_st (check_exec_l f (init_lworld s plan)))) = Model.FsProto.lookup q (st_fs s).
+Proof. exact lstat_argument_frame. Qed.
+Print Assumptions C02_lstat_argument_frame.
+
+(* NOT the code: with Stat the target of a link given as argument is chmod-ed although only
+   the link is named *)
+Theorem C02_stat_argument_refuted :
+  ~ (forall (s : Model.FsProto.state) (f : Model.FsProto.path) (plan : lplan) (q : Model.FsProto.path), q <> f ->
+       Model.FsProto.lookup q (st_fs (lw_st (check_exec_stat f (init_lworld s plan)))) = Model.FsProto.lookup q (st_fs s)).
+Proof. exact stat_argument_refuted. Qed.
+Print Assumptions C02_stat_argument_refuted.
